@@ -14,7 +14,7 @@ POLICIES = [(0, 0, 0), (35, 0, 0), (0, 35, 0), (25, 25, 0), (20, 20, 12), (60, 6
 
 def run(tier, seed):
     ev = Evidence(PROP, tier, seed, 'model_checking')
-    ev.cov['rule'] = ('solved plans (the execution example, the repository state-variable / resource examples, feasible timeline shapes '
+    ev.cov['rule'] = ('(0) the tick protocol as a state machine (ExecProto.tla) model-checked for every client behaviour on small plans; (1) solved plans (the execution example, the repository state-variable / resource examples, feasible timeline shapes '
                       'from PlanGen.tla, temporal and causal families) executed tick by tick by the real executor with a scripted '
                       'client (plus plans built so that re-planning after a failure presses a delayed atom back in time, run under many seeds of a client that delays starts often and injects failures) that, by seed, asks to delay starting / ending atoms by 1-2 units from the starting / ending '
                       'callbacks and injects failures between ticks; every callback is recorded with the values at that moment and '
@@ -26,6 +26,25 @@ def run(tier, seed):
     ev.assumptions = ['delays are whole multiples of the tick unit (Appendix B of DESIGN.md)',
                       'an execution_exception (the plan cannot be adapted) ends an execution and is not a violation']
     try:
+        # the tick protocol as a state machine (spec/ExecProto.tla): every client behaviour on small plans
+        q = tier == 'quick'
+        for cfg, what in (('MC_ExecProto_quick.cfg' if q else 'MC_ExecProto.cfg', 'tick protocol: every client behaviour (delays of starts / ends, one failure) on a plan of 2 (quick) / 3 (thorough) atoms: StartedBeforeEnded, NotBeforeItsTime, NothingStartedMoved, DelayedStartKept, EverythingDispatched'),
+                          ('MC_ExecProto_live.cfg', 'tick protocol: a tick() call always returns (TickReturns under weak fairness of Look / Dispatch)')):
+            r = vlib.model_check('MC_ExecProto', cfg, timeout=280 if q else 3000)
+            ev.add_model(r, what)
+            if r['invariant_violated'] or r['property_violated'] or not r['no_error']:
+                rp = os.path.join(vlib.VERIF, 'replays', '%s-ExecProto.out' % PROP)
+                os.makedirs(os.path.dirname(rp), exist_ok=True)
+                open(rp, 'w').write(r['out'])
+                ev.violations += 1
+                vlib.violation(PROP, rp, 'model ExecProto/%s violates %s' % (cfg, r['invariant_violated'] or 'a temporal property'))
+                return 1
+        # non-vacuity, and the open finding in model form: if re-planning may put an atom that has not started in the past,
+        # the invariants must fail
+        r = vlib.tlc('MC_ExecProto', 'MC_ExecProto_pastplan.cfg', workers=4, timeout=600)
+        if not r['invariant_violated']:
+            raise vlib.CheckError('ExecProto with FutureOnly = FALSE does not violate its invariants: the model is vacuous')
+        ev.cov['pastplan_model_violates'] = r['invariant_violated']
         rd = vlib.run_dir(PROP)
         shapes, r = gen_problems.plangen_shapes(2, rd)
         ev.add_model(r, 'PlanGen: enumeration of small timeline problems (feasible ones are executed)')
